@@ -219,6 +219,11 @@ func assembleMSA(t *rapid.T, a Anno, qs []varQuery, withRef bool, extraBothGap b
 	for _, q := range qs {
 		m.Rows = append(m.Rows, FaRec{ID: q.Name, Desc: genDesc(t, "desc"), Seq: randomCase(t, build(q.Row, q.Ins), "case")})
 	}
+	if !withRef && len(m.Rows) > 0 && rapid.IntRange(0, 2).Draw(t, "queryNamedLikeReference") == 0 {
+		// the reference is taken from the annotation; one query carries the reference's own name (the reference genome left
+		// in the alignment): it is a query like any other
+		m.Rows[rapid.IntRange(0, len(m.Rows)-1).Draw(t, "whichQuery")].ID = a.RefName
+	}
 	if withRef {
 		m.RefID = a.RefName
 		at := rapid.IntRange(0, len(m.Rows)).Draw(t, "refAt")
